@@ -7,7 +7,7 @@ HOME = '/home/u'
 TI = '[Trash Info]\nPath=%s\nDeletionDate=%s\n'
 
 NAME_POOL = ['a', 'b', 'c', 'foo', 'foobar', 'A', 'a b', 'x%y', 'n\nl', '-r', 'é', '€uro', 'a*', '[a]', 'q?', 'a.trashinfo',
-             '.hidden', 'foo.txt', 'Foo', 'x+y', 'tab\tx', 'per%41', '~t', 'a=b', '#h']
+             '.hidden', 'foo.txt', 'Foo', 'x+y', 'tab\tx', 'per%41', '~t', 'a=b', '#h', '...', '....', '.bashrc', 'report ', ' lead', 'end\t']
 DIR_POOL = ['', 'd', 'd/e', 'foo', 'a', 'deep/er/still', 'sp ace', 'é']
 DATES = ['2024-01-01T00:00:00', '2023-12-31T23:59:59', '2000-02-29T12:00:00', '1999-12-31T00:00:00', '2024-03-01T10:20:30',
          '2030-01-01T00:00:00', '2024-01-01T00:00:01', '2023-06-15T08:09:10']
@@ -23,18 +23,20 @@ def quote(p):
 class Layout:
     """volumes, home, uid, env and the trash directories that exist"""
 
-    def __init__(self, rng, home_on_own_volume=None, nvols=None, uid=None, top_states=None, nested=None, xdg=None):
+    def __init__(self, rng, home_on_own_volume=None, nvols=None, uid=None, top_states=None, nested=None, xdg=None, home_name=None):
         self.rng = rng
         self.uid = rng.choice([0, 1000, 501]) if uid is None else uid
         own = (rng.random() < 0.25) if home_on_own_volume is None else home_on_own_volume
         self.home_vol = '/hv' if own else '/'
-        self.home = ('/hv/home/u' if own else HOME)
+        # home_name: a home directory whose name contains characters that mean something to regular expressions / globs / format strings
+        self.home = ('/hv' if own else '') + (home_name or HOME)
         nv = rng.choice([1, 1, 2, 3]) if nvols is None else nvols
         self.vols = ['/vol%d' % i for i in range(1, nv + 1)]
         if (rng.random() < 0.2 if nested is None else nested) and self.vols:
             self.vols.append(self.vols[0] + '/nest')
         self.mounts = ([self.home_vol] if own else []) + self.vols
-        self.tree = [['d', self.home, 0o755]] + [['d', v, 0o755] for v in self.mounts]
+        # a volume root can itself be world-writable and sticky (a scratch volume, like /tmp): that says nothing about its .Trash
+        self.tree = [['d', self.home, 0o755]] + [['d', v, rng.choice([0o755, 0o755, 0o755, 0o1777])] for v in self.mounts]
         self.env = {'HOME': self.home}
         x = rng.choice(['unset', 'unset', 'set', 'empty']) if xdg is None else xdg
         if x == 'set':
@@ -133,7 +135,7 @@ def entry(td, name, path, date, kind='f', data=None, info_override=None):
 
 
 MALFORMED = ['non_trashinfo', 'empty', 'truncated', 'binary', 'nonutf8', 'dir_info', 'no_path', 'no_date', 'bad_date',
-             'info_only', 'payload_only', 'dot_trashinfo', 'dup_keys', 'crlf', 'no_header']
+             'info_only', 'payload_only', 'dot_trashinfo', 'dotdot_trashinfo', 'dup_keys', 'crlf', 'no_header']
 
 
 def malformed(rng, td, kind, tag):
@@ -164,6 +166,10 @@ def malformed(rng, td, kind, tag):
         return [['f', td + '/files/' + n, 'orphan'], ['d', td + '/info', 0o700]]
     if kind == 'dot_trashinfo':
         return [['f', td + '/info/.trashinfo', TI % ('/home/u/dot%s' % tag, '2001-01-01T00:00:00')]]
+    if kind == 'dotdot_trashinfo':
+        # info files whose payload name would be '.' or '..': not entries at all (files/. and files/.. are the directory and its parent)
+        nm = rng.choice(['..trashinfo', '...trashinfo'])
+        return [['f', td + '/info/' + nm, TI % ('/home/u/dots%s' % tag, '2001-01-01T00:00:00')], ['d', td + '/files', 0o700]]
     if kind == 'dup_keys':
         return [['f', i, '[Trash Info]\nPath=/home/u/first%s\nPath=/home/u/second\nDeletionDate=2001-01-01T00:00:00\n'
                          'DeletionDate=2030-01-01T00:00:00\nFoo=bar\n[Other]\nPath=/zzz\n' % tag], ['f', td + '/files/' + n, 'p']]
@@ -257,7 +263,7 @@ def suffix_family(rng, p=0.3):
     """trash names that are confusable when '.trashinfo' is cut off or substituted carelessly: X, X.trashinfo, X.trashinfo.trashinfo"""
     if rng.random() >= p:
         return []
-    x = rng.choice(['notes', 'a', '\xe9', 'x y'])
+    x = rng.choice(['notes', 'a', '\xe9', 'x y', '.bashrc', '...'])
     fam = [x, x + '.trashinfo'] + ([x + '.trashinfo.trashinfo'] if rng.random() < 0.4 else [])
     rng.shuffle(fam)
     return fam
